@@ -21,7 +21,8 @@ ASSUMPTIONS = [
 
 def sig(ev):
     c = ev["c"]
-    return {"form": c["form"], "extra": c.get("extra"), "observed": ev["kind"], "top": ev.get("top", False), "warn": ev["warn"], "hard": ev["hard"], "panic": ev["panic"]}
+    return {"form": c["form"], "extra": c.get("extra"), "observed": ev["kind"], "top": ev.get("top", False), "warn": ev["warn"], "hard": ev["hard"], "panic": ev["panic"],
+            "probe": ev.get("probe", "")}
 
 
 def desc(ev):
@@ -53,6 +54,8 @@ def run(ctx, replay):
         t4, s4 = vlib.drive_cases(ctx, "c15", cases[::11], nchunks=8, extra=["-nest", "24"], tag="nest24")
         traces += t2 + t3 + t4
         sums += s2 + s3 + s4
+    tp, _ = vlib.drive_gen(ctx, "c15", 1, extra=["-probes", "1"], tag="probes")
+    traces += tp
     n, bad = vlib.judge(ctx, "Trace_Steps", traces)
     vlib.report_bad(ctx, bad, sig, desc,
                     lambda ev: {"cases": [ev["c"]], "extra": ["-nest", ev.get("nest", 0), "-top", "1" if ev.get("top") else "0"], "event": ev},
